@@ -7,6 +7,7 @@
 #include "refhdr.h"
 #include "gen_syms.h"
 #include "igzip_lib.h"
+#include "cpusim.h"
 
 static gslot *s_zs, *s_out, *s_st, *s_in, *s_extra, *s_name, *s_comment, *s_hdr, *s_ic[4];
 static uint8_t *ref, *extra_src; static char *name_src, *comment_src;
@@ -254,6 +255,29 @@ out:
 	for (int i = 0; i < 4; i++) { if (s_ic[i]->released) gs_reacquire(s_ic[i]); gs_reset(s_ic[i]); }
 	gs_reset(s_st); gs_reset(s_out);
 }
+/* avail_in is a 32-bit count: values of 2^31 and above are ordinary (a 3 GiB mapping of a file).  The readers are given a valid header at the
+ * start of a buffer of 2 GiB + 4 MiB (one 2 MiB block mapped over and over) with avail_in covering all of it */
+static void huge_avail_in(void)
+{
+	vrng r; vr_seed(&r, vopt.seed, 91, 1);
+	for (int gz = 1; gz >= 0; gz--) for (int rep = 0; rep < 3; rep++) {
+		size_t hl; if (gz) { refgz_t h; gen_fields(&r, &h); if (h.extra_len > 300) h.extra_len = 300; if (rep == 0) { h.has_extra = 0; h.name = h.comment = NULL; h.hcrc = 0; } hl = refhdr_gzip(ref, &h); } else hl = refhdr_zlib(ref, rep * 2 + 1, rep, rep == 2, 0x01020304);
+		uint8_t *big = v_alias_map((2ull << 30) + (4u << 20), 0, ref, hl + 8); if (!big) { v_set("huge_avail_in", "skipped: aliased mapping refused"); return; }
+		struct inflate_state *st = (struct inflate_state *) gs_place(s_st, sizeof *st, G_END, 0); static struct isal_gzip_header gh; static struct isal_zlib_header zh;
+		uint8_t *eb = gs_place(s_extra, 400, G_END, 0); char *nb = (char *) gs_place(s_name, 6000, G_END, 0), *cb = (char *) gs_place(s_comment, 6000, G_END, 0);
+		v_setcase(700000000l + gz * 10 + rep, "%s header of %zu bytes at the start of a 2 GiB + 4 MiB buffer, avail_in = 0x%x", gz ? "gzip" : "zlib", hl, 0x80000000u + (3u << 20));
+		int rc = 99;
+		if (V_TRY(120)) { isal_inflate_init(st); isal_gzip_header_init(&gh); isal_zlib_header_init(&zh); gh.extra = eb; gh.extra_buf_len = 400; gh.name = nb; gh.name_buf_len = 6000; gh.comment = cb; gh.comment_buf_len = 6000;
+			st->next_in = big; st->avail_in = 0x80000000u + (3u << 20); rc = gz ? isal_read_gzip_header(st, &gh) : isal_read_zlib_header(st, &zh); V_END;
+		} else { fault_key(gz ? "isal_read_gzip_header(avail_in >= 2^31)" : "isal_read_zlib_header(avail_in >= 2^31)"); munmap(big, (2ull << 30) + (4u << 20) + 4096); gs_reset(s_st); continue; }
+		st_reads++; v_count("huge_avail_in_reads", gz ? "gzip" : "zlib", 1);
+		size_t pos = (0x80000000u + (3u << 20)) - st->avail_in;
+		if (rc != ISAL_DECOMP_OK) { char key[100]; snprintf(key, sizeof key, "reader:rejects-valid-header:%s:%d:huge-avail_in", gz ? "gzip" : "zlib", rc); v_viol(key, "returned %d with avail_in >= 2^31", rc); }
+		else if (pos != hl) { char key[100]; snprintf(key, sizeof key, "reader:end-position:%s:huge-avail_in", gz ? "gzip" : "zlib"); v_viol(key, "stopped at %zu, the header is %zu bytes long", pos, hl); }
+		{ long d = gs_check(s_st, 4096); if (d != GS_OK) { v_viol("oob-write:inflate_state", "canary next to the inflate_state damaged at %+ld", d); gs_repaint_all(s_st); } }
+		munmap(big, (2ull << 30) + (4u << 20) + 4096); gs_reset(s_st); gs_reset(s_extra); gs_reset(s_name); gs_reset(s_comment);
+	}
+}
 int main(int argc, char **argv)
 {
 	v_init(argc, argv);
@@ -262,9 +286,16 @@ int main(int argc, char **argv)
 	s_extra = gs_new("extra", 70000); s_name = gs_new("name", 12000); s_comment = gs_new("comment", 12000); s_hdr = gs_new("gzip_header", 4096); for (int i = 0; i < 4; i++) s_ic[i] = gs_new("in_chunk", 70000);
 	ref = malloc(100000); extra_src = malloc(70000); name_src = malloc(8192); comment_src = malloc(8192);
 	long n = (long) ((vopt.thorough ? 4000000 : 60000) * vopt.scale);
-	for (long idx = 0; idx < n; idx++) { if (!v_mine(idx)) continue; vrng r; vr_seed(&r, vopt.seed, 80, idx);
+	if (V_NDISPATCHED > 0) { cpusim_init(); const cpucfg *c0 = cpusim_find("avx512+g2"); if (c0 && cpusim_host_can(c0)) cpusim_apply(c0); }
+	if (vopt.shard == 0 && vopt.only < 0 && !strcmp(vopt.prop, "C19")) huge_avail_in(); else if (vopt.only >= 700000000l && vopt.only < 800000000l) { huge_avail_in(); return v_finish(); }
+	/* the header CRC16 is computed by whichever crc32_gzip_refl kernel the CPU level selects: the cases are spread over four levels */
+	static const char *lvn[4] = { "avx512+g2", "avx", "sse", "base" };
+	for (int l = 0; l < 4; l++) {
+	if (V_NDISPATCHED > 0) { const cpucfg *c = cpusim_find(lvn[l]); if (!c || !cpusim_host_can(c)) continue; cpusim_apply(c); v_set("cpu_levels", lvn[l]); } else if (l) break;
+	for (long idx = 0; idx < n; idx++) { if (!v_mine(idx) || (V_NDISPATCHED > 0 && (idx / 16) % 4 != l)) continue; vrng r; vr_seed(&r, vopt.seed, 80, idx);
 		switch (idx % 8) { case 0: case 1: gzip_write_case(idx, &r); break; case 2: zlib_write_case(idx, &r); break; case 3: case 4: case 5: gzip_read_case(idx, &r); break; case 6: zlib_read_case(idx, &r); break; default: if ((idx / 8) % 3 == 0) inflate_hdr_case(idx, &r); else arbitrary_case(idx, &r); }
 		if (v_nviol > v_viol_cap) break; }
+	}
 	/* systematic: every split point of a header that uses every optional field */
 	for (int k = 0; k < (vopt.thorough ? 40 : 6); k++) { long idx = 900000000l + k; if (!v_mine(idx)) continue; /* covered through gzip_read_case mode 1 with explicit splits below */
 		vrng r; vr_seed(&r, vopt.seed, 81, idx); (void) r; }
